@@ -353,6 +353,10 @@ def run(ctx):
     ctx.rule("R01.n", "the comparison helper does not move the value: _to_datetime, interpreted abstractly on a datetime / a plain date / something else, returns a datetime and anything else "
                       "unchanged (the very object) and converts only plain dates (R01.f compares bounds through it and assumes it preserves order)", floor=1)
     ctx.rule("R01.g", "every _validate_value override below Tuple checks isinstance(val, tuple) (itself or via super) before iterating the value", floor=3)
+    ctx.rule("R01.i", "list-item model: List._validate_item_type interpreted on lists of one to three items with the ill-typed item at every position, for is_instance True and False "
+                      "(where all items are classes and share one `type`): accepted iff every item is an instance / a subclass of the declared item_type", floor=1)
+    ctx.rule("R01.o", "constructor model: Parameters._setup_params interpreted abstractly (keywords x reference modes, a keyword that restates the class default object included): every "
+                      "keyword value -- resolved, for references -- is assigned through setattr, i.e. reaches the validating setter", floor=1)
     ctx.rule("R01.u", "update model: Parameters._update interpreted abstractly (entry flag x key orders x rejected / unknown key x a key given the value it already holds): every key given "
                       "reaches the validating setter, so update(...) accepts exactly what an assignment accepts", floor=1)
     ctx.rule("R01.m", "setter model: Parameter.__set__ interpreted abstractly on every combination (576) of route x constant/readonly x validation outcome x identity x reference mode x watchers x batching agrees with the specification of this property (see checks/setter_model.py)", floor=1)
@@ -413,3 +417,7 @@ def run(ctx):
     setter_model.report(ctx, "C01", "R01.m")
     from checks import update_model
     update_model.report(ctx, "C01", "R01.u")
+    from checks import c01_types as _ct
+    _ct.list_item_model(ctx, "R01.i")
+    from checks import ctor_model
+    ctor_model.report(ctx, "C01", "R01.o")
